@@ -4,7 +4,7 @@ import Fs.Model.Meta
 Driver handler for the `meta` model (C09).
 
 request:  `meta	hist	<op>;<op>;…	<probe keys>` with keys `d.s.n`, columns `name:ty`, ty = `i` | `n<p>.<s>` | `t<len>` | `f` | `b` | `d` | `z`
-  op := `ct,<key>,<col>/<col>…,<comment|->,<0|1>` | `cs,<key>,<src>,<n>/<n>…,<0|1>` | `cl,<key>,<src>,<0|1>`
+  op := `ct,<key>,<col>/<col>…,<comment|->,<0|1>,<pk column|->` | `cs,<key>,<src>,<n>/<n>…,<0|1>` | `cl,<key>,<src>,<0|1>`
       | `cv,<key>,<src>,<n>/<n>…,<0|1>` | `ac,<key>,<col>` | `dc,<key>,<n>` | `rc,<key>,<a>,<b>` | `rt,<key>,<n>`
       | `sc,<key>,<c>` | `dt,<key>` | `dv,<key>`
 reply:    `steps=<step>;…`, step := `<ok 0|1>~<finding|->~<agree 0|1>~<objects>` where objects lists every live object as
@@ -41,10 +41,11 @@ def pB (s : String) : Bool := s == "1"
 
 def pOp (s : String) : Option Op :=
   match s.splitOn "," with
-  | ["ct", k, cols, c, r] => do
+  | ["ct", k, cols, c, r, pk] => do
     let k ← pKey k; let cols ← pCols cols
     let c ← (if c == "-" then some none else c.toNat?.map some)
-    pure (.createTable k cols c (pB r))
+    let pk ← (if pk == "-" then some none else pk.toNat?.map some)
+    pure (.createTable k cols c (pB r) pk)
   | ["cs", k, src, sel, r] => do let k ← pKey k; let src ← pKey src; let sel ← pNames sel; pure (.ctas k src sel (pB r))
   | ["cl", k, src, r] => do let k ← pKey k; let src ← pKey src; pure (.clone k src (pB r))
   | ["cv", k, src, sel, r] => do let k ← pKey k; let src ← pKey src; let sel ← pNames sel; pure (.createView k src sel (pB r))
@@ -68,7 +69,7 @@ def eTab (w : World) (t : Tab) : String :=
   let di := ((describeI w t.key).getD []).map (·.ty)
   let ii := ((infoColumnsI w t.key).getD []).map (·.2)
   let cols := (t.cols.zip (di.zip ii)).map fun (c, d, i) => s!"{c.name}:{eTy c.ty}:{eTy d}:{eOpt i}"
-  s!"{eKey t.key}:{if t.isView then "v" else "t"}:{eOpt t.comment}:{eOpt (lookupT w.tExt t.key)}:{"/".intercalate cols}"
+  s!"{eKey t.key}:{if t.isView then "v" else "t"}{match t.pk with | some p => s!"#{p}" | none => ""}:{eOpt t.comment}:{eOpt (lookupT w.tExt t.key)}:{"/".intercalate cols}"
 
 def runOut (w : World) : List Op → List String
   | [] => []
